@@ -2107,6 +2107,10 @@ func op_mvn(cpu *CPU) {
 		cpu.RX++
 	}
 
+	if cpu.M == 1 {
+		// the 16-bit count lives in RAh:RAl while the accumulator is 8 bits wide
+		cpu.RA = uint16(cpu.RAh)<<8 | uint16(cpu.RAl)
+	}
 	cpu.RA--
 	cpu.RAl = uint8(cpu.RA & 0x00ff)
 	cpu.RAh = uint8(cpu.RA >> 8)
@@ -2131,6 +2135,10 @@ func op_mvp(cpu *CPU) {
 		cpu.RX--
 	}
 
+	if cpu.M == 1 {
+		// the 16-bit count lives in RAh:RAl while the accumulator is 8 bits wide
+		cpu.RA = uint16(cpu.RAh)<<8 | uint16(cpu.RAl)
+	}
 	cpu.RA--
 	cpu.RAl = uint8(cpu.RA & 0x00ff)
 	cpu.RAh = uint8(cpu.RA >> 8)
